@@ -40,7 +40,12 @@
 (* {t, sym, tab, br, s}.  t and sym carry a token; tokens are numbered     *)
 (* 1, 2, ... in source order over the whole body (the renderer writes      *)
 (* token n as the string wNNN, a symbol as one CJK code point 4E00+n).     *)
-(* Optional header / footer parts carry tokens 901 / 902.                  *)
+(* Optional header / footer parts carry tokens 901 / 902.  Between and      *)
+(* around the blocks stand block-level wrappers and markers (WO / WC / M,   *)
+(* see BlockOK): what is inside a wrapper is body content like any other,   *)
+(* and the order and structure of all blocks must hold whatever wrappers    *)
+(* stand between them.  Deleted text (tracked changes, token 903) is not    *)
+(* part of the body.                                                        *)
 (*                                                                         *)
 (* The reader contract is a machine with one action per body block: it     *)
 (* emits the item the block must be presented as.  An item is              *)
@@ -160,14 +165,34 @@ TblOK(t) ==
     /\ \A i, j \in 1..Len(t.rc) : i # j => t.rc[i] # t.rc[j]
 
 \* ---------------------------------------------------------------- blocks
-NTok(b) == IF b.k = "TBL"
+NTok(b) == IF b.k \in {"WO", "WC", "M"} THEN 0 ELSE IF b.k = "TBL"
            THEN Sum([i \in 1..Len(Anchors(b.tb)) |-> NCell(b.tb, Anchors(b.tb)[i])])
            ELSE NBear(FlatCh(b.ch))
 
+\* Block-level wrappers and markers.  "WO" / "WC" open / close a wrapper of kind how around
+\* the blocks between them; "M" is a childless marker between blocks.  They carry no token.
+\*   DOCX wrappers: sdt = w:sdt / w:sdtContent (block-level content control, e.g. a table of
+\*                  contents), customXml = w:customXml
+\*        markers:  bookmark = w:bookmarkStart + w:bookmarkEnd, proofErr, sdtempty = an empty
+\*                  block-level content control
+\*   ODT  wrappers: section = text:section, toc = text:table-of-content / text:index-body
+\*        markers:  softbreak = text:soft-page-break, sectionempty = an empty section,
+\*                  tracked = text:tracked-changes holding a deleted paragraph (token DelTok),
+\*                  only as the first child of office:text (its place in the schema)
+Brackets == {"WO", "WC", "M"}
+WrapKinds(f) == IF f = "docx" THEN {"sdt", "customXml"} ELSE {"section", "toc"}
+MarkKinds(f) == IF f = "docx" THEN {"bookmark", "proofErr", "sdtempty"} ELSE {"softbreak", "sectionempty", "tracked"}
+DelTok == 903
+
 BlockOK(f, b) ==
-    /\ b.k \in {"P", "H", "LI", "TBL", "S"}
-    /\ b.k = "TBL" => TblOK(b.tb) /\ b.ch = <<>>
-    /\ b.k # "TBL" =>
+    /\ b.k \in {"P", "H", "LI", "TBL", "S"} \cup Brackets
+    \* a table may wrap the paragraphs of every cell in a content control / a section
+    /\ b.k = "TBL" => TblOK(b.tb) /\ b.ch = <<>> /\ b.how \in {"", IF f = "docx" THEN "cellsdt" ELSE "cellsec"}
+    /\ b.k \in Brackets => (b.ch = <<>> /\ b.tb = NoTbl)
+    /\ b.k = "WO" => b.how \in WrapKinds(f)
+    /\ b.k = "WC" => b.how = ""
+    /\ b.k = "M" => b.how \in MarkKinds(f)
+    /\ b.k \notin Brackets \cup {"TBL"} =>
           /\ b.tb = NoTbl
           /\ Len(b.ch) >= 1
           /\ \A i \in 1..Len(b.ch) : /\ b.ch[i].w \in Wrappers(f)
@@ -189,6 +214,11 @@ BlockOK(f, b) ==
                       /\ b.how \in (IF f = "docx" THEN {"", "emp"} ELSE {"", "emp", "cont", "wrapp"})
     /\ b.k = "S" => b.lvl \in 1..9
     /\ b.k # "S" => b.sty = 0
+
+\* wrappers are properly nested (at most MaxWrap deep) and every one is closed
+WrapDepth(body, i) == Cardinality({q \in 1..i : body[q].k = "WO"}) - Cardinality({q \in 1..i : body[q].k = "WC"})
+Balanced(body) == /\ \A i \in 1..Len(body) : WrapDepth(body, i) \in 0..3
+                  /\ WrapDepth(body, Len(body)) = 0
 
 \* a continuation paragraph belongs to an item that is still open: an earlier item of the
 \* same list at the same depth with only deeper blocks (at least one) in between
@@ -212,6 +242,8 @@ IsDoc(d) ==
     /\ \A i \in 1..Len(d.body) : BlockOK(d.fmt, d.body[i])
     /\ ListOK(d.body)
     /\ SheetOK(d.fmt, d.sheet)
+    /\ Balanced(d.body)
+    /\ \A i \in 1..Len(d.body) : (d.body[i].k = "M" /\ d.body[i].how = "tracked") => i = 1
     \* a document with a sheet of its own defines exactly the styles of the sheet: its other
     \* headings are declared by a direct outline level, not by the fixed heading styles
     /\ d.sheet # <<>> => \A i \in 1..Len(d.body) : d.body[i].k = "H" => d.body[i].how = "outline"
@@ -243,6 +275,8 @@ Item(d, i) ==
                      rs |-> IF InS(an[q], b.tb.vm) THEN 2 ELSE 1,
                      cs |-> IF InS(an[q], b.tb.hm) THEN 2 ELSE 1,
                      ids |-> [j \in 1..NCell(b.tb, an[q]) |-> base + off[q] + j]]]]
+       ELSE IF b.k \in Brackets
+       THEN [k |-> b.k, lvl |-> 0, alt |-> 0, mdlvl |-> 0, ids |-> <<>>, gaps |-> <<>>, rows |-> 0, cols |-> 0, cells |-> <<>>]
        ELSE IF b.k = "S" /\ b.how = "noattr"
        THEN \* ODT text:h without text:outline-level: ODF 1.2 says such a heading is at level 1;
             \* readers commonly take the default-outline-level of the heading's own style.  Both
@@ -277,8 +311,10 @@ EmitH   == EmitKind("H")
 EmitLI  == EmitKind("LI")
 EmitTbl == EmitKind("TBL")
 EmitSty == EmitKind("S")
+\* wrappers and markers are passed over: the blocks inside a wrapper are body blocks like any other
+PassBracket == EmitKind("WO") \/ EmitKind("WC") \/ EmitKind("M")
 
-Next == EmitP \/ EmitH \/ EmitLI \/ EmitTbl \/ EmitSty
+Next == EmitP \/ EmitH \/ EmitLI \/ EmitTbl \/ EmitSty \/ PassBracket
 
 Spec == Init /\ [][Next]_vars
 
@@ -300,7 +336,7 @@ Structure == \A i \in 1..pos :
                 /\ doc.body[i].k = "H" => out[i].lvl = doc.body[i].lvl
                 /\ doc.body[i].k = "LI" => out[i].lvl = doc.body[i].lvl - MinLI(doc.body)
                 /\ Len(out[i].ids) = NTok(doc.body[i])
-                /\ Len(out[i].gaps) = (IF doc.body[i].k = "TBL" THEN 0 ELSE Len(out[i].ids) - 1)
+                /\ Len(out[i].gaps) = (IF doc.body[i].k \in Brackets \cup {"TBL"} THEN 0 ELSE Len(out[i].ids) - 1)
 
 \* a table's cells partition its tokens, in row-major order
 CellsOK == \A i \in 1..pos : out[i].k = "TBL" =>
